@@ -196,6 +196,20 @@ def execute(case):
     if errors:
         raise RuntimeError("C03 worker failed: " + json.dumps(errors)[:3000])
     tags = ["W0", "W0'", "W1", "W2", "W0s"]
+    diag_cache = {}
+
+    def diagnose(which):
+        if which not in diag_cache:
+            job = dict(jobs[which][0])
+            p = spawn(job, 0, False)
+            try:
+                rows_, err_ = collect(p)
+            finally:
+                if p.poll() is None:
+                    p.kill()
+                    p.wait()
+            diag_cache[which] = {row["slot"]: row for row in (rows_ or [])}
+        return diag_cache[which]
     nt = 0
     seen = set()
     for i in range(n):
@@ -219,7 +233,12 @@ def execute(case):
             elif d["W0"] != d["W0'"]:
                 cause, other = "process-history", "W0'"
             else:
-                cause, other = "hashseed", ("W1" if d["W0"] != d["W1"] else "W2")
+                # W1 / W2 differ from W0 in hash seed *and* in what ran before: replay the differing worker's exact
+                # job under PYTHONHASHSEED=0; if the history alone reproduces a difference it is process-history
+                other = "W1" if d["W0"] != d["W1"] else "W2"
+                diag = diagnose(other)
+                dd = diag.get(i, {}).get(key)
+                cause = "process-history" if (dd is not None and dd != d["W0"]) else "hashseed"
             sig = f"{P}/matrix/{kind}-differ/{fam}/{cause}"
             r.labels.append(f"differs:{cause}")
             if sig in seen:
